@@ -11,10 +11,27 @@ use std::io::{BufRead, Write};
 /// Pool strings live in `store` (kept alive until every object of the case is gone) and are handed
 /// out as `&'static str` with addresses of their own (also the empty ones).
 fn make_pool(items: &[&str], store: &mut Vec<Box<str>>) -> Vec<&'static str> {
-    items
-        .iter()
-        .map(|h| {
-            let b = harness::unhex(h);
+    let mut made: Vec<&'static str> = Vec::new();
+    for h in items {
+        let b = harness::unhex(h);
+        // a proper, non-empty prefix of an earlier pool string shares that string's start address
+        // (overlapping 'static slices are ordinary Rust: `&S[..n]` and `S`)
+        let alias = made.iter().find(|m| !b.is_empty() && m.len() > b.len() && m.as_bytes().starts_with(&b) && m.is_char_boundary(b.len())).copied();
+        // (never hand out the very same slice twice: equal pool strings stay distinguishable by address)
+        let alias = alias.map(|m| &m[..b.len()]).filter(|c| !made.iter().any(|m| m.as_ptr() == c.as_ptr() && m.len() == c.len()));
+        let s = match alias {
+            Some(c) => c,
+            None => make_one(&b, store),
+        };
+        made.push(s);
+    }
+    made
+}
+
+fn make_one(b: &[u8], store: &mut Vec<Box<str>>) -> &'static str {
+    let b = b.to_vec();
+    {
+        {
             let empty = b.is_empty();
             let owned: Box<str> = if empty { String::from("x").into_boxed_str() } else { String::from_utf8(b).unwrap().into_boxed_str() };
             let s: &'static str = unsafe { std::mem::transmute::<&str, &'static str>(&*owned) };
@@ -24,13 +41,14 @@ fn make_pool(items: &[&str], store: &mut Vec<Box<str>>) -> Vec<&'static str> {
             } else {
                 s
             }
-        })
-        .collect()
+        }
+    }
 }
 
 struct Sink {
     imp: std::fs::File,
     oracle: std::fs::File,
+    journal: Option<String>,
 }
 
 fn merge(a: &mut std::collections::HashMap<String, u64>, b: &std::collections::HashMap<String, u64>) {
@@ -80,6 +98,9 @@ fn run_case_once<K: KeyT>(case_no: u64, header: &str, hasher: HashKind, lines: &
                     None => "bad-op".into(),
                 }
             };
+            if keep {
+                harness::seqrun::journal('A', &out);
+            }
             local.push(out);
         }
         let mut local_oracle = Vec::new();
@@ -120,7 +141,15 @@ fn run_case_once<K: KeyT>(case_no: u64, header: &str, hasher: HashKind, lines: &
 }
 
 fn run_case<K: KeyT>(case_no: u64, header: &str, hasher: HashKind, lines: &[String], sink: &mut Sink, tot: &mut Totals) {
+    // fresh journal for this case
+    if let Some(j) = sink.journal.as_ref() {
+        *harness::seqrun::JOURNAL.lock().unwrap() = std::fs::File::create(j).ok();
+    }
     let (answers, oracle, _delta) = run_case_once::<K>(case_no, header, hasher, lines, Some(tot), true);
+    *harness::seqrun::JOURNAL.lock().unwrap() = None;
+    if let Some(j) = sink.journal.as_ref() {
+        let _ = std::fs::write(j, "");
+    }
     for a in &answers {
         writeln!(sink.imp, "{a}").unwrap();
     }
@@ -147,6 +176,7 @@ fn exec(prefix: &str, from_case: u64) {
     let mut sink = Sink {
         imp: std::fs::OpenOptions::new().append(true).create(true).open(format!("{prefix}.impl")).unwrap(),
         oracle: std::fs::OpenOptions::new().append(true).create(true).open(format!("{prefix}.oracle")).unwrap(),
+        journal: Some(format!("{prefix}.journal")),
     };
     let mut tot = Totals::default();
     let mut cases: Vec<(String, Vec<String>)> = Vec::new();
@@ -237,12 +267,31 @@ fn supervise(prefix: &str) {
         }
         let have = std::fs::read_to_string(format!("{prefix}.impl")).unwrap_or_default().lines().count();
         let mut f = std::fs::OpenOptions::new().append(true).open(format!("{prefix}.impl")).unwrap();
-        let done_in_case = have.saturating_sub(total_before);
+        let mut o = std::fs::OpenOptions::new().append(true).open(format!("{prefix}.oracle")).unwrap();
+        let mut done_in_case = have.saturating_sub(total_before);
+        // what the dead process had answered and found before it died (if it died in the first run of the case)
+        let journal = std::fs::read_to_string(format!("{prefix}.journal")).unwrap_or_default();
+        let case_lines: Vec<&str> = {
+            let mut idx: i64 = -1;
+            ops.lines().filter(|l| { if l.starts_with("case ") { idx += 1; } idx as u64 == c }).collect()
+        };
+        if done_in_case <= 1 {
+            for l in journal.lines() {
+                if let Some(a) = l.strip_prefix("A ") {
+                    if done_in_case < need {
+                        writeln!(f, "{a}").unwrap();
+                        done_in_case += 1;
+                    }
+                } else if let Some(x) = l.strip_prefix("O ") {
+                    writeln!(o, "{x}").unwrap();
+                }
+            }
+        }
         for i in done_in_case..need {
             writeln!(f, "{}", if i == done_in_case { "fault abort" } else { "skipped" }).unwrap();
         }
-        let mut o = std::fs::OpenOptions::new().append(true).open(format!("{prefix}.oracle")).unwrap();
-        writeln!(o, "C04 process-abort :: the process died (status {st}) inside case {c} at op {} of the case :: case {c}", done_in_case).unwrap();
+        let at = case_lines.get(done_in_case).copied().unwrap_or("(after the last op: final sweep, drop, or the leak re-run)");
+        writeln!(o, "C04 process-abort :: the process died ({st}) inside case {c} while executing op {done_in_case} of the case: {at} :: case {c}").unwrap();
         from = c + 1;
         if from >= n_cases || crashes > 50 {
             if !std::path::Path::new(&format!("{prefix}.stats")).exists() {
